@@ -208,7 +208,7 @@ class Problem:
             out.append(self.cond(a, fixed))
         return out
 
-    def text(self, violated, extra=(), fixed=None, want_model=True):
+    def text(self, violated, extra=(), fixed=None, want_model=True, pin_env=None):
         self.atoms = {}
         body = self.base(fixed)
         for e in extra: body.append(self.cond(e, fixed))
@@ -220,6 +220,12 @@ class Problem:
             decls.append("(declare-const %s Int)" % _name(m))
             lo, hi = ctx.interval(Poly({m: 1}))
             bnds.append("(assert (and (>= %s %s) (<= %s %s)))" % (_name(m), _num(lo), _name(m), _num(hi)))
+        if pin_env:
+            for m in self.atoms:
+                if all(x in pin_env for x in m):
+                    val = 1
+                    for x in m: val *= pin_env[x]
+                    bnds.append("(assert (= %s %s))" % (_name(m), _num(val)))
         lines = ["(set-logic ALL)"] + decls + bnds + ["(assert %s)" % b for b in body if b != "true"] + ["(check-sat)"]
         if want_model:
             singles = [m for m in self.atoms if len(m) == 1]
@@ -227,7 +233,7 @@ class Problem:
         return "\n".join(lines) + "\n"
 
     # ---------------------------------------------------------------- solving
-    def check(self, violated, extra=(), timeout_s=60, solver="z3", split=True, also=()):
+    def check(self, violated, extra=(), timeout_s=60, solver="z3", split=True, also=(), pin_env=None):
         """returns (verdict, model_env or None, seconds, info) ; verdict in unsat/sat/unknown/error"""
         t0 = time.time()
         ctx = self.ctx
@@ -243,7 +249,7 @@ class Problem:
         jobs = []
         closed = 0
         for fx in fixsets:
-            txt = self.text(violated, extra, fx)
+            txt = self.text(violated, extra, fx, pin_env=pin_env)
             if txt is None: closed += 1; continue
             jobs.append((fx, txt))
         STATS["closed_without_solver"] += closed
